@@ -37,6 +37,8 @@ pub fn config_json(cfg: &StoreCfg, path: &Path, extra_merge: Option<serde_json::
     let sync = sync.unwrap_or_else(|| {
         if cfg.sync_always {
             serde_json::json!("always")
+        } else if cfg.sync_interval_ms > 0 {
+            serde_json::json!({ "interval_ms": cfg.sync_interval_ms })
         } else {
             serde_json::json!("none")
         }
